@@ -18,6 +18,7 @@
 (*   RunTotalDos(method)      -> total DOS on a frequency grid                *)
 (*   RunProjectedDos(kind)    -> projected DOS (atoms | xyz | direction triad)*)
 (*   RunReordered(order)      -> the same on a descending / shuffled grid     *)
+(*   RunSmearing(fn, width)   -> total + projected DOS, Normal and Cauchy     *)
 (* Steps are taken in the order of the event's step list.                     *)
 EXTENDS Integers, Sequences, FiniteSets, TLC
 
@@ -51,10 +52,20 @@ RunProjectedDos == Advance("projected") /\ meshDone /\ UNCHANGED <<meshDone, tot
 (* points through run_tetrahedron_method_dos and TetrahedronMesh               *)
 RunReordered == Advance("reordered") /\ meshDone /\ UNCHANGED <<meshDone, totalDone>>
 
-ANext == RunMesh \/ RunTotalDos \/ RunProjectedDos \/ RunReordered
+(* smearing method for one smearing FUNCTION ("normal" | "cauchy") and one     *)
+(* width: TotalDos and, on the full grid, ProjectedDos (atoms and xyz) on the  *)
+(* same frequency grid, which reaches into gaps and tails many widths away     *)
+(* from every mode                                                              *)
+RunSmearing == Advance("smearing") /\ meshDone /\ UNCHANGED <<meshDone, totalDone>>
+
+(* a call of the real code that raised (logged without result fields) *)
+RunFailed == Advance("failed") /\ UNCHANGED <<meshDone, totalDone>>
+
+ANext == RunMesh \/ RunTotalDos \/ RunProjectedDos \/ RunReordered \/ RunSmearing \/ RunFailed
 ASpec == AInit /\ [][ANext]_avars
 
-IsDos == HasCur /\ Cur.op \in {"total", "projected", "reordered"}
+IsDos == HasCur /\ Cur.op \in {"total", "projected", "reordered", "smearing"}
+IsSmearing == HasCur /\ Cur.op = "smearing"
 
 -----------------------------------------------------------------------------
 (* the whole step list is consumed (no step is refused by the machine) *)
@@ -98,6 +109,21 @@ ImplIntegral == (IsDos /\ Cur.op = "total") => Cur.integral = "ok"
 (* the value at a frequency point depends on that point only: a grid in any  *)
 (* order gives, point by point, the values of the ascending grid             *)
 ImplOrderIndependent == (IsDos /\ Cur.op = "reordered") => Cur.sameAsAscending = "ok"
+
+(* smearing, for every function and width:                                     *)
+(*   DOS(w) = SUM_q w_q SUM_band coef K(f_qb - w) / SUM_q w_q  with the FULL   *)
+(*   kernel K (no window: a Lorentzian has tails), total and every projection; *)
+(*   SUM_atoms pdos = SUM_components pdos = total at every frequency point,    *)
+(*   relative to the total's scale AND relative to the total at that point     *)
+(*   (gaps and tails, where everything is small)                               *)
+ImplSmearingFunction == IsSmearing => Cur.fn \in {"normal", "cauchy"}
+ImplSmearingTotal == IsSmearing => Cur.matchesTotal = "ok"
+ImplSmearingProjected == (IsSmearing /\ Cur.projected) => (Cur.matchesAtoms = "ok" /\ Cur.matchesXyz = "ok")
+ImplSmearingAdditive ==
+  (IsSmearing /\ Cur.projected) =>
+     /\ Cur.additiveAtoms = "ok" /\ Cur.additiveXyz = "ok"
+     /\ Cur.additiveAtomsPointwise = "ok" /\ Cur.additiveXyzPointwise = "ok"
+     /\ Cur.nprojAtoms = ses.nbands \div 3 /\ Cur.nprojXyz = ses.nbands
 
 (* projections add up to the total at every frequency point *)
 ImplAdditive == (IsDos /\ Cur.op = "projected") => Cur.additive = "ok"
